@@ -14,6 +14,7 @@ import (
 )
 
 type Ctx struct {
+	effFree map[*ssa.Function]int
 	noDescend map[*ssa.Function]bool // withCallees does not enter these (leaf producers)
 	P         *core.Prog
 	R         *core.Report
@@ -47,6 +48,13 @@ func (c *Ctx) RunSafely(f func(c *Ctx)) {
 			c.R.Fail("checker-panic", fmt.Sprint(r), "-", "checker panicked; no verdict")
 		}
 	}()
+	core.LiftCallers = func(fn *ssa.Function) []core.LiftSite {
+		var out []core.LiftSite
+		for _, cs := range c.callersOf(fn) {
+			out = append(out, core.LiftSite{Caller: cs.Caller, Site: cs.Site})
+		}
+		return out
+	}
 	f(c)
 }
 
